@@ -649,3 +649,272 @@ def c04_relation_nt(s, f, c, rows):
         return c04_relation(s, snap_rows(rows, c))
     except ValueError as e:
         return str(e)
+# =========================================================================== C05 strengthening (additive)
+# index layouts of the multi-point input, chunked feeding through process(chunk, flush), real binned laws for several
+# assessment points.  Nothing above this line was changed.
+REQ_C05 = ['From PL Require Import Rainflow.Model HCM.Model HCM.Load HCM.Periodic HCM.Select HCM.Full HCM.Chunks HCM.Eqb.', 'Open Scope Z_scope.']
+
+
+def _rows(c, n=None):
+    """collective -> list of row dicts (n = None: single point) / list per assessment point."""
+    def rows_of(cj):
+        out = []
+        for i in range(len(cj)):
+            r = {}
+            for k in COLS:
+                v = cj[k].iloc[i]
+                r[k] = v.item() if hasattr(v, 'item') else v
+            out.append(r)
+        return out
+    if n is None:
+        return rows_of(c)
+    ap = c.index.get_level_values('assessment_point_index')
+    return [rows_of(c[ap == j]) for j in range(n)]
+
+
+def multi_series(s, ratios, labels=None):
+    """Series with (load_step, node_id) MultiIndex: node j carries ratios[j] * s; labels = the load_step labels in row order."""
+    labels = list(range(len(s))) if labels is None else list(labels)
+    idx = pd.MultiIndex.from_product([labels, range(len(ratios))], names=['load_step', 'node_id'])
+    return pd.Series(np.outer(np.asarray(s, float), np.asarray(ratios, float)).ravel(), index=idx)
+
+
+def label_layout(rng, n):
+    """load_step labels of n samples: unique non-negative integers; the row order defines the sequence, not the labels."""
+    kind = rng.choice(['ascending', 'ascending', 'gaps', 'shuffled', 'shuffled', 'descending', 'offset'])
+    if kind == 'ascending':
+        return kind, list(range(n))
+    if kind == 'gaps':
+        return kind, sorted(rng.sample(range(0, 4 * n + 2), n))
+    if kind == 'shuffled':
+        return kind, rng.sample(range(0, 3 * n + 2), n)
+    if kind == 'descending':
+        return kind, list(range(n - 1, -1, -1))
+    off = rng.randint(1, 50)
+    return kind, list(range(off, off + n))
+
+
+def impl_run_multi_labels(s, ratios, labels, law=None):
+    """As impl_run_multi, with the given load_step labels."""
+    ls = multi_series(s, ratios, labels)
+    rec, d = _detector(law or IntLaw())
+    d.process_hcm_first(ls)
+    d.process_hcm_second(ls)
+    return _rows(rec.collective, len(ratios)), [float(x) for x in d.strain_values], int(len(d.strain_values_first_run))
+
+
+def impl_run_chunks(chunks, flushes, ratios=None, law=None):
+    """process(chunk_1, flush_1) ... process(chunk_k, flush_k) on a fresh detector.  ratios = None: single point (arrays);
+    otherwise a multi-point Series per chunk with consecutive load_step labels starting at 0."""
+    rec, d = _detector(law or IntLaw())
+    k = 0
+    for ch, fl in zip(chunks, flushes):
+        if ratios is None:
+            d.process(np.asarray(ch, dtype=float), flush=bool(fl))
+        else:
+            d.process(multi_series(ch, ratios, range(k, k + len(ch))), flush=bool(fl))
+        k += len(ch)
+    return (_rows(rec.collective, None if ratios is None else len(ratios)), [float(x) for x in d.strain_values],
+            int(len(d.strain_values_first_run)))
+
+
+def _w_multi_labels(a):
+    return _safe(impl_run_multi_labels, a)
+
+
+def _w_chunks(a):
+    return _safe(impl_run_chunks, a)
+
+
+def delivered_turns(chunks, flushes):
+    """Search-side oracle of AbstractDetector._new_turns (the model is Rainflow.Model.new_turns, tied by C01 and by the chunk
+    correspondence of C05): global sample indices of the turning points handed to the HCM loop in every call."""
+    seq, out, done = [], [], set()
+    for ch, fl in zip(chunks, flushes):
+        seq = seq + list(ch)
+        t = [i for i, _ in find_turns(seq)]
+        new = [i for i in t if i not in done]
+        if fl and seq:
+            # flush: the last sample is processed as well (position of the start of a trailing plateau)
+            j = len(seq) - 1
+            while j > 0 and seq[j - 1] == seq[j]:
+                j -= 1
+            if j not in done and j not in new and (len(seq) > 0):
+                new.append(j)
+        done.update(new)
+        out.append(sorted(new))
+    return out
+
+
+def chunk_domain(chunks, flushes):
+    """Chunkings on which the multi-point path of the UNCHANGED detector is meaningful (see notes/build/C05.md, Observations):
+    the turning point carried over from the previous call is the LAST sample of that call (no trailing plateau), and it is
+    not followed directly by the flushed last sample of the current chunk (both would get the same load_step label).
+    Returns None if inside the domain, else the reason."""
+    start = 0
+    seq = [x for ch in chunks for x in ch]
+    for k, (ch, T) in enumerate(zip(chunks, delivered_turns(chunks, flushes))):
+        end = start + len(ch) - 1
+        if len(ch) == 0:
+            return 'empty chunk'
+        if T and T[0] < start - 1:
+            return 'carried-over turning point is not the last sample of the previous chunk'
+        if T and T[0] == start - 1 and len(T) >= 2 and len(set(seq[T[1]:end + 1])) == 1:
+            return 'carried-over turning point directly followed by the (flushed) last sample of the chunk'
+        start = end + 1
+    return None
+
+
+def chunk_lit(chunks, flushes):
+    return '[' + '; '.join('(%s, %s)' % (coq_list(ch), blit(fl)) for ch, fl in zip(chunks, flushes)) + ']'
+
+
+def c05_multi_term_v(pwc, pwl, s, c0, cs, per_point_rows, strains, nfirst):
+    rows = '[' + '; '.join('[' + '; '.join(zrow_lit(r) for r in rows) + ']' for rows in per_point_rows) + ']'
+    return 'mobs_eqb (mobs_v %s %s %s %s %s) %s %s %s' % (zlit(c0), coq_list(cs), blit(pwc), blit(pwl), coq_list(s), rows,
+                                                         coq_list(strains, zl), nlit(nfirst))
+
+
+def c05_chunk_term(chunks, flushes, rows, strains, nfirst):
+    return 'zobs_eqb (zcobs %s) [%s] %s %s' % (chunk_lit(chunks, flushes), '; '.join(zrow_lit(r) for r in rows), coq_list(strains, zl), nlit(nfirst))
+
+
+def c05_chunk_multi_term(pwc, pwl, chunks, flushes, cs, per_point_rows, strains, nfirst):
+    rows = '[' + '; '.join('[' + '; '.join(zrow_lit(r) for r in rows) + ']' for rows in per_point_rows) + ']'
+    return 'mobs_eqb (mcobs %s %s 1 %s %s) %s %s %s' % (blit(pwc), blit(pwl), coq_list(cs), chunk_lit(chunks, flushes), rows,
+                                                       coq_list(strains, zl), nlit(nfirst))
+
+
+# ----- real binned laws, several assessment points (implementation-side relation batch = single)
+def real_base(kind):
+    import pylife.materiallaws.notch_approximation_law as NL
+    if kind == 'neuber':
+        return NL.ExtendedNeuber(E=206e3, K=1184.0, n=0.187, K_p=3.5)
+    from pylife.materiallaws.notch_approximation_law_seegerbeste import SeegerBeste
+    return SeegerBeste(E=206e3, K=1184.0, n=0.187, K_p=3.5)
+
+
+def impl_run_real_batch(s, ratios, kind, bins=100):
+    """Binned(law) built for all points at once (per-point maximum load), process_hcm_first/second on the MultiIndex Series."""
+    import pylife.materiallaws.notch_approximation_law as NL
+    m = float(max(abs(x) for x in s))
+    mx = pd.Series([m * float(r) for r in ratios], index=pd.Index(range(len(ratios)), name='node_id'))
+    law = NL.Binned(real_base(kind), mx, bins)
+    ls = multi_series(s, ratios)
+    rec, d = _detector(law)
+    d.process_hcm_first(ls)
+    d.process_hcm_second(ls)
+    return _rows(rec.collective, len(ratios)), [float(x) for x in d.strain_values], int(len(d.strain_values_first_run))
+
+
+def impl_run_real_alone(s, ratio, kind, bins=100):
+    import pylife.materiallaws.notch_approximation_law as NL
+    m = float(max(abs(x) for x in s))
+    law = NL.Binned(real_base(kind), m * float(ratio), bins)
+    a = np.asarray(s, float) * float(ratio)
+    rec, d = _detector(law)
+    d.process_hcm_first(a)
+    d.process_hcm_second(a)
+    return _rows(rec.collective), [float(x) for x in d.strain_values], int(len(d.strain_values_first_run))
+
+
+def _w_real_batch(a):
+    s, ratios, kind = a
+    return _safe(lambda: (impl_run_real_batch(s, ratios, kind), [impl_run_real_alone(s, r, kind) for r in ratios]), ())
+
+
+VALUE_COLS = ['loads_min', 'loads_max', 'S_min', 'S_max', 'R', 'epsilon_min', 'epsilon_max', 'S_a', 'S_m', 'epsilon_a', 'epsilon_m',
+              'epsilon_min_LF', 'epsilon_max_LF']
+FLAG_COLS = ['is_closed_hysteresis', 'is_zero_mean_stress_and_strain', 'run_index']
+SWAP_GROUP = {'S_min', 'S_max', 'epsilon_min', 'epsilon_max', 'S_a', 'epsilon_a', 'R'}
+LF_GROUP = {'epsilon_min_LF', 'epsilon_max_LF'}
+
+
+def _close(x, y, rtol):
+    if x == y:
+        return True
+    if not (np.isfinite(x) and np.isfinite(y)):
+        return bool(np.isnan(x) and np.isnan(y))
+    return abs(x - y) <= rtol * (abs(x) + abs(y)) / 2 + 1e-300
+
+
+S_FAMILY = ('S_min', 'S_max', 'S_a', 'S_m')
+E_FAMILY = ('epsilon_min', 'epsilon_max', 'epsilon_a', 'epsilon_m', 'epsilon_min_LF', 'epsilon_max_LF')
+
+
+def rows_diff(batch_rows, alone_rows, rtol=0.0):
+    """Columns in which the rows of a point in the batch differ from its single-point run: None if the row counts differ,
+    else the list of (row index, column).  rtol = 0: exact (injected integer law).  rtol > 0 (real laws, float noise): stresses
+    and strains are sums of law values of both signs, so their rounding error is relative to the largest stress / strain of
+    the run, not to the (possibly cancelling) entry: |x - y| <= rtol * max|S| resp. max|epsilon| over the point's rows;
+    R = S_min / S_max with the propagated bound."""
+    if len(batch_rows) != len(alone_rows):
+        return None
+    out = []
+    if rtol > 0:
+        sS = max([abs(float(r[k])) for r in alone_rows for k in ('S_min', 'S_max')] + [1e-300])
+        sE = max([abs(float(r[k])) for r in alone_rows for k in ('epsilon_min', 'epsilon_max', 'epsilon_min_LF', 'epsilon_max_LF')] + [1e-300])
+    for i, (x, y) in enumerate(zip(batch_rows, alone_rows)):
+        for k in VALUE_COLS:
+            a, b = float(x[k]), float(y[k])
+            if a == b or (np.isnan(a) and np.isnan(b)):
+                continue
+            if rtol == 0 or not (np.isfinite(a) and np.isfinite(b)):
+                out.append((i, k))
+            elif k in S_FAMILY:
+                if abs(a - b) > rtol * sS:
+                    out.append((i, k))
+            elif k in E_FAMILY:
+                if abs(a - b) > rtol * sE:
+                    out.append((i, k))
+            elif k == 'R':
+                den = max(abs(float(y['S_max'])), 1e-300)
+                if abs(a - b) > rtol * sS * (1 + abs(b)) / den:
+                    out.append((i, k))
+            elif abs(a - b) > rtol * max(abs(a), abs(b)):
+                out.append((i, k))
+        for k in FLAG_COLS:
+            if x[k] != y[k]:
+                out.append((i, k))
+    return out
+
+
+def explain_batch_diff(batch_rows, alone_rows, alone_strains, diffs, rtol=0.0):
+    """Observational diagnosis of a batch/single difference of one point (used by the class predicates of the two findings):
+    'swap'  : in every differing row outside the *_LF columns the batch has min and max of stress and/or strain EXCHANGED
+              with respect to the single-point run (exchanging them back restores the row exactly);
+    'lf'    : every differing running extreme of the batch is 0 or one of the point's own visited strains, and is less extreme
+              than the single-point value (an update was lost / taken although the point had a more extreme value).
+    Returns the set of explanations that account for ALL differences, or set() when something else differs."""
+    kinds = set()
+    rows_bad = sorted({i for i, _ in diffs})
+    for i in rows_bad:
+        cols = {k for r, k in diffs if r == i}
+        x, y = batch_rows[i], alone_rows[i]
+        rest = cols - LF_GROUP
+        if rest:
+            if not rest <= SWAP_GROUP:
+                return set()
+            ok = True
+            for lo, hi in (('S_min', 'S_max'), ('epsilon_min', 'epsilon_max')):
+                same = _close(x[lo], y[lo], rtol) and _close(x[hi], y[hi], rtol)
+                swapped = _close(x[lo], y[hi], rtol) and _close(x[hi], y[lo], rtol)
+                if not (same or swapped):
+                    ok = False
+            # derived columns must be those of the exchanged pair: amplitudes change sign, means stay (not in SWAP_GROUP)
+            if not ok or not (_close(abs(x['S_a']), abs(y['S_a']), max(rtol, 1e-12)) and _close(abs(x['epsilon_a']), abs(y['epsilon_a']), max(rtol, 1e-12))):
+                return set()
+            kinds.add('swap')
+        lf = cols & LF_GROUP
+        if lf:
+            own = [0.0] + list(alone_strains)
+            for k in lf:
+                v = float(x[k])
+                if not any(_close(v, o, max(rtol, 1e-12)) for o in own):
+                    return set()
+                if k == 'epsilon_min_LF' and not v >= float(y[k]):
+                    return set()
+                if k == 'epsilon_max_LF' and not v <= float(y[k]):
+                    return set()
+            kinds.add('lf')
+    return kinds
